@@ -151,6 +151,11 @@ def check_items(items, devs, acc):
         doc = docgen.render(mitems, 'C', devs)
         if not doc.valid:
             return
+        if devs and docgen.render(mitems, 'C').skel != doc.skel:
+            # the whitespace changed the structure (LaTeX's own rule: no optional argument after whitespace for the line-break
+            # macro, its bracket becomes visible text): the marker classes of the derivation do not apply
+            acc.count('skipped_whitespace_changes_structure')
+            return
         case = dict(s=doc.text, items=repr(items), devs={str(k): v for k, v in (devs or {}).items()}, db=db)
         acc.count('evaluations')
         st, res = run_guarded(contexts.parse, doc.text, 'C', False)
@@ -277,8 +282,105 @@ def check_mathenvs(acc, only=None):
                         break
 
 
+MATRIX_ENVS = [('array', '{c}'), ('pmatrix', ''), ('bmatrix', ''), ('smallmatrix', ''), ('psmallmatrix', ''), ('bsmallmatrix', '')]
+
+
+def check_matrices(acc, only=None):
+    """Comments and cell texts inside matrix-like environments, in running text and inside a formula."""
+    for (env, arg) in MATRIX_ENVS:
+        body = 'W1x & W2x %C3x\n \\\\ W4x'
+        src = '\\begin{%s}%s%s\\end{%s}' % (env, arg, body, env)
+        for (fname, frame, inmath) in (('top', '%s', False), ('inline', 'A1x $%s$ B2x', True), ('display', '\\[%s\\]', True), ('group', '{%s}', False)):
+            text = frame % src
+            if only is not None and only != text:
+                continue
+            acc.count('evaluations')
+            acc.count('nontrivial')
+            acc.count('mathenv_documents')
+            st, res = run_guarded(contexts.parse, text, 'C', False)
+            if st != 'ok':
+                acc.count('not_parsed')
+                continue
+            for db in ('default', 'custom'):
+                for o in OPTS:
+                    mm, kc, sls, ft = o
+                    st, out = run_guarded(l2t_obj(db, o).nodelist_to_text, res[1])
+                    acc.count('renderings')
+                    case = dict(s=text, db=db, opt=[str(x) for x in o], env=env, frame=fname)
+                    if st != 'ok' or not isinstance(out, str):
+                        acc.violation(ID, 'matrices', case, dict(kind='latex2text-raises', exc=type(out).__name__ if st == 'exc' else st))
+                        break
+                    bad = None
+                    cells = all(m in out for m in ('W1x', 'W2x', 'W4x'))
+                    if inmath and mm == 'remove':
+                        if any(m in out for m in ('W1x', 'W2x', 'W4x', 'C3x')):
+                            bad = dict(kind='formula-content-leaked-under-remove')
+                    elif inmath and mm == 'verbatim':
+                        if src not in out:
+                            bad = dict(kind='verbatim-formula-source-missing')
+                    elif not cells:
+                        bad = dict(kind='visible-text-missing', math_mode=mm, in_math=inmath)
+                    elif kc and '%C3x' not in out:
+                        bad = dict(kind='kept-comment-missing', math_mode=mm, in_math=inmath)
+                    elif not kc and 'C3x' in out:
+                        bad = dict(kind='comment-text-leaked', math_mode=mm, in_math=inmath)
+                    if bad:
+                        bad['matrix_environment'] = True
+                        acc.violation(ID, 'matrices', case, bad, observed=repr(out)[:300])
+                        break
+
+
+LATE_DOCS = ['\\emph{W1x} \\textbf{W2x}', '\\begin{foo}W3x\\end{foo} \\emph{W4x}W5x', '$\\emph{W6x}$ W7x']
+
+
+def check_late(acc, only=None):
+    """A construct declared as discarded *after* the converter has rendered it contributes nothing from then on:
+    all sequences of <= 3 operations (convert one of three documents, declare \\emph / {foo} discarded by a prepended
+    category, replace the converter's context by a fresh default one) on one converter."""
+    from pylatexenc import latex2text as lt
+    ops = [('conv', 0), ('conv', 1), ('conv', 2), ('discard-macro', 'emph'), ('discard-env', 'foo'), ('new-context', None)]
+    for k in (1, 2, 3):
+        for seq in itertools.product(range(len(ops)), repeat=k):
+            if only is not None and list(seq) != only:
+                continue
+            if ops[seq[-1]][0] != 'conv':
+                continue
+            acc.count('evaluations')
+            acc.count('nontrivial')
+            acc.count('late_histories')
+            conv = lt.LatexNodes2Text(latex_context=lt.get_default_latex_context_db())
+            disc = set()
+            for step, oi in enumerate(seq):
+                op, arg = ops[oi]
+                case = dict(seq=list(seq), step=step)
+                try:
+                    if op == 'discard-macro':
+                        conv.latex_context.add_context_category('late-%d' % step, prepend=True, macros=[lt.MacroTextSpec(arg, discard=True)])
+                        disc.add(arg)
+                    elif op == 'discard-env':
+                        conv.latex_context.add_context_category('late-%d' % step, prepend=True, environments=[lt.EnvironmentTextSpec(arg, discard=True)])
+                        disc.add(arg)
+                    elif op == 'new-context':
+                        conv.latex_context = lt.get_default_latex_context_db()
+                        disc = set()
+                    else:
+                        out = conv.latex_to_text(LATE_DOCS[arg])
+                        hidden = {'W1x': 'emph', 'W3x': 'foo', 'W4x': 'emph', 'W6x': 'emph'}
+                        for m in ('W1x', 'W2x', 'W3x', 'W4x', 'W5x', 'W6x', 'W7x'):
+                            if m not in LATE_DOCS[arg]:
+                                continue
+                            expect = hidden.get(m) not in disc
+                            if (m in out) != expect:
+                                acc.violation(ID, 'late', case, dict(kind='discarded-content-leaked' if not expect else 'visible-text-missing',
+                                                                     declared_after_first_use=True), observed=repr(out)[:200])
+                                break
+                except Exception as e:
+                    acc.violation(ID, 'late', case, dict(kind='latex2text-raises', exc=type(e).__name__))
+                    break
+
+
 def plan(tier):
-    shards = [(pi, k) for pi in range(len(PROFILES[tier])) for k in range(NSL)] + [('mathenvs', 0)]
+    shards = [(pi, k) for pi in range(len(PROFILES[tier])) for k in range(NSL)] + [('mathenvs', 0), ('matrices', 0), ('late', 0)]
     return dict(
         shards=shards, bounds=dict(profiles=PROFILES[tier], option_sets=len(OPTS), databases=['default', 'custom (emph, foo discard=True)']),
         rule=('core grammar + \\label (mc/docgen.py SIGS["C"]): ' + '; '.join('size <= %d, <= %s non-default argument forms, <= %d deviations'
@@ -286,7 +388,7 @@ def plan(tier):
               '; every text item and comment replaced by a unique marker word; x 48 option sets (4 math_mode x keep_comments x 3 whitespace '
               'policies x fill_text in {None, 20}) x 2 text databases.  one evaluation = one (document, database) under all option sets; '
               'non-trivial = documents with at least one marker.  plus each of the 12 equation environments of the default text database '
-              '(align*, multline*, dmath, ...) with marked content in 8 positions under all option sets and both databases.'),
+              '(align*, multline*, dmath, ...) with marked content in 8 positions under all option sets and both databases; 6 matrix-like environments with cell texts and a comment in running text, inline, display and in a group; all sequences of <= 3 operations (convert, declare a macro / environment discarded, replace the context) on one converter.'),
         assumptions=['outermost formulas are located in the parsed tree (C01/C02); marker classes (in formula / in discarded construct) come from the derivation',
                      'comments between a macro and its argument are consumed by the parser by design and are not generated as marker comments'],
     )
@@ -296,6 +398,12 @@ def run_shard(shard, tier, acc):
     pi, k = shard
     if pi == 'mathenvs':
         check_mathenvs(acc)
+        return
+    if pi == 'matrices':
+        check_matrices(acc)
+        return
+    if pi == 'late':
+        check_late(acc)
         return
     p = PROFILES[tier][pi]
     for items in docgen.iter_doc_slice(p, k):
@@ -308,6 +416,13 @@ def run_shard(shard, tier, acc):
 
 def replay(sub, case):
     acc = engine.Acc()
+    if sub == 'late':
+        check_late(acc, only=case['seq'])
+        return acc.violations
+    if sub == 'matrices':
+        check_matrices(acc, only=case['s'])
+        acc.violations = [v for v in acc.violations if v['case'].get('db') == case.get('db')]
+        return acc.violations
     if sub == 'mathenvs':
         check_mathenvs(acc, only=case['s'])
         acc.violations = [v for v in acc.violations if v['case'].get('db') == case.get('db')]
